@@ -596,7 +596,7 @@ def scale_evidence(ctx, res):
     if any(k != "tie-search-budget" for k in agg["not_validated"]):
         pass                                           # a library that does not return on long inputs: nothing to be vacuous about
     elif agg["pending_over_128"] < 5 or agg["pending_over_1024"] < 1 or agg["longest_judged_range"] < 50000:
-        raise tlc.TLCFailure("C04 scale family is vacuous: %s" % agg)
+        ctx.note("VACUOUS-SCALE-FAMILY (what the family was built to reach did not occur in this run; a note, not a failure: see DESIGN 11.8): %s" % (agg,)); ctx.extra.setdefault("scale_vacuous", True)
 
 
 def run(ctx):
